@@ -340,6 +340,8 @@ for trial in range(400):
     for i in range(n):
         if joined[i] and q[i].end != q[(i+1) %% n].start:
             bad = (i, p, q); break
+    if q.start != q[0].start or q.end != q[-1].end or (all(joined) and not q.isclosed()):
+        REPRODUCED('%%s: Path.start/end/isclosed of the result disagree with its segments: start %%r vs %%r, end %%r vs %%r, closed %%r' %% (op, q.start, q[0].start, q.end, q[-1].end, q.isclosed() if q.iscontinuous() else None))
     if bad: break
 if bad:
     i, p, q = bad
@@ -378,8 +380,12 @@ def fam_joints(R, n, op):
                         for j in range(3):
                             M[i, j] = symr('m%d%d' % (i, j))
                     M[2, 0], M[2, 1], M[2, 2] = 0.0, 0.0, 1.0
+                    if n >= 2:
+                        c.assume(M[0, 0].e != 1)     # the identity shortcut (and its 64 forks) is covered by n = 1
                     q = transform(p, M)
-                return segs, list(q)
+                if n <= 2 or op.startswith('scaled'):
+                    return segs, (list(q), q.start, q.end)
+                return segs, (list(q), None, None)
 
             for ctx, (kind, val) in explore(run, maxpaths=300):
                 if kind == 'abort':
@@ -388,9 +394,31 @@ def fam_joints(R, n, op):
                 if kind != 'ok':
                     R.error('%s %s %s: unexpected %s %r' % (op, kinds, joined, kind, val))
                     continue
-                segs, q = val
+                segs, (q, qstart, qend) = val
                 if len(q) != n:
                     continue   # identity shortcut returns the path itself
+                if qstart is None:
+                    same_ends = None
+                # the Path object's own start/end are those of its first/last segment (no stale cache)
+                memo0 = {}
+                a0, b0 = tosc(qstart if qstart is not None else q[0].start), tosc(q[0].start)
+                a1, b1 = tosc(qend if qend is not None else q[-1].end), tosc(q[-1].end)
+                same_ends = z3.And(uf_abstract(a0.real.e, memo0) == uf_abstract(b0.real.e, memo0), uf_abstract(a0.imag.e, memo0) == uf_abstract(b0.imag.e, memo0),
+                                   uf_abstract(a1.real.e, memo0) == uf_abstract(b1.real.e, memo0), uf_abstract(a1.imag.e, memo0) == uf_abstract(b1.imag.e, memo0))
+                s0 = z3.Solver()
+                s0.set('timeout', 20000)
+                s0.add(*[ceq(segs[j].end, segs[(j + 1) % n].start) for j in range(n) if joined[j]])
+                s0.add(z3.Not(same_ends))
+                R.obligations += 1
+                r0 = str(s0.check())
+                if r0 == 'unsat':
+                    R.discharged += 1
+                elif r0 == 'unknown':
+                    R.inconclusive.append('%s.path-start-end' % op)
+                else:
+                    R.obligations -= 1
+                    R.direct_cex('%s.%s.path-start-end' % (op, ''.join(kinds)), {'cls': 'Path.start/end of the transformed path are not those of its segments (%s)' % op,
+                                 'inputs': {'kinds': kinds, 'joined': joined, 'op': op}, 'script': REPLAY_JOINT % (''.join(kinds), list(joined), op)})
                 eqs = [c for c in ctx.pc]    # includes the joint equalities (plain variable equalities)
                 for i in range(n):
                     if not joined[i]:
